@@ -31,6 +31,12 @@ def run(ck, pid="C03", theorems=THEOREMS, module="Properties_C03"):
     analyse(ck, res, want=("output", "trace", "deadlock", "monitor"))
     # whole encrypt / decrypt under the scheduler: output must equal the spec / the plaintext under every schedule
     end_to_end(ck, exe, 200 if big else 40)
+    # several pipeline runs in ONE process: each run's output must be the sequential reference (a buffer, a cursor or a flag left
+    # over from the previous run makes a chunk go to the wrong worker or get the wrong length)
+    from props.C14 import repeated_pipelines
+    flags = ck.impl_flags
+    repeated_pipelines(ck)
+    ck.impl_flags = flags
     return finish_proof(ck, rule=RULE, assumptions=ASSUME)
 
 
